@@ -37,6 +37,7 @@ K_H5LINK = "fd:hdf5-linked-file-left-open"             # ids of nodes inside a l
 K_OPENFAIL = "fd:cg_open-fails-after-cgio-open"        # cg_open returns CG_ERROR and keeps the cgio file and the table entry
 K_ADFCYCLE_LEAK = "fd:adf-link-cycle-keeps-files-open"  # (repaired close only) reference-count cycle
 K_SAVEAS = "fd:cg_save_as-fails-after-cgio-open"       # cg_save_as returns CG_ERROR and keeps the output file open
+K_FAILIDS = "h5id:failed-read-without-type-keeps-ids"  # ADFH_Read_*_Data: m_data_type == NULL returns with the dataset and group ids open
 K_H5TWICE = "fd:hdf5-same-file-opened-twice"           # ADFH get_file_id picks the other handle's file id: the second close fails (95)
 
 
@@ -100,6 +101,11 @@ def fields(line):
 # ----------------------------------------------------------------------------------------------- cgio / ADF level
 IO_KINDS = ["ok", "ok", "okL", "okB", "okE", "ok", "missing", "garbage", "badhdr", "dir"]   # ok* = NATIVE / LEGACY / IEEE_BIG / IEEE_LITTLE layout
 DTYPES = ["C1", "B1", "I4", "U4", "I8", "U8", "R4", "R8", "X4", "X8"]          # every data type the back ends store
+# failing data calls: every cgio data entry point x every class of invalid argument (harness/c17_io.c, op "bad")
+BAD_ENTRIES = ["rall", "rblock", "rdata", "wall", "wallt", "wblock", "wdata", "wdatat"]
+BAD_CLASSES = ["badtype", "nulltype", "mismatch", "start0", "endbig", "startgtend", "stride0", "mstart0", "mendbig", "mstride0", "rank0", "rank2", "msmall"]
+STRAND_KINDS = ["dataset", "group", "attr", "datatype"]
+NOTABLE = ("data ", "bad ", "strand ")             # operations that touch no handle table (not given to the model)
 MLL_DTYPES = ["Integer", "LongInteger", "RealSingle", "RealDouble", "Character", "ComplexSingle", "ComplexDouble"]
 
 
@@ -146,9 +152,13 @@ def gen_io(rng, big=False):
                 if dang:
                     break                                            # nothing can follow a step that fails
             ops.append("%s %d %s" % (rng.choice(["walk", "walk", "node"]), c, " ".join(ch)))
-        elif r < 0.8:
+        elif r < 0.77:
             c = rng.randint(1, max(1, nopen))
             ops.append("data %d %s %d %s" % (c, rng.choice(DTYPES), rng.choice([1, 2, 7, 64]), rng.choice(["all", "block", "strided"])))
+        elif r < 0.82:
+            ops.append("bad %d %s %s" % (rng.randint(1, max(1, nopen)), rng.choice(BAD_ENTRIES), rng.choice(BAD_CLASSES)))
+        elif r < 0.84:
+            ops.append("strand %d %s" % (rng.randint(1, max(1, nopen)), rng.choice(STRAND_KINDS)))
         else:
             ops.append("close %d" % (rng.randint(1, max(1, nopen)) if rng.random() < 0.9 else rng.randint(0, 9)))
     world = "world %s %s" % (",".join(kinds), ",".join(["%d>%d" % e for e in sorted(links)] + ["%d>%d!" % e for e in sorted(dlinks)]) or "-")
@@ -201,7 +211,7 @@ def io_align(r):
     ml, out, k = r["model"], [], 0
     script = [o for o in r["script"] if not o.startswith("cycle ")]
     for i, o in enumerate(script):
-        if o.startswith("data "):
+        if o.startswith(NOTABLE):
             prev = out[-1] if out else ""
             ans = il[i].split(" | ")[0] if i < len(il) else "data ?"
             out.append(ans + " | " + " | ".join(prev.split(" | ")[1:]))
@@ -247,7 +257,7 @@ def io_case(exe, world, ops, backend, work, tag, variant=None, cycles=1):
     il, oc, rep = run_h(exe, "\n".join(script) + "\n", [d, backend], work, tag)
     ml = None
     if variant:
-        ml = vlib.run_model("c17", "variant %s\nfuel 20000\n%s\n" % (variant, "\n".join([world] + [o for o in body if not o.startswith("data ")])), args=["io"])
+        ml = vlib.run_model("c17", "variant %s\nfuel 20000\n%s\n" % (variant, "\n".join([world] + [o for o in body if not o.startswith(NOTABLE)])), args=["io"])
     shutil.rmtree(d, ignore_errors=True)
     return {"impl": il, "outcome": oc, "report": rep, "model": ml, "world": world, "ops": ops, "backend": backend, "script": script}
 
@@ -275,7 +285,7 @@ def io_oracle(r):
         return bad
     prev = None
     close95 = r["backend"] == "hdf5" and any(l.startswith("close 95") for l in il)
-    held = {}
+    held, idsflag = {}, []
     for li, l in enumerate(il):
         if l.startswith("cycle "):
             t = l.split()
@@ -307,6 +317,13 @@ def io_oracle(r):
                         {"problem": "a failing open changed the descriptor / HDF5 id count", "before": prev["raw"], "after": l,
                          "op": " ".join(op)}))
             break
+        if d["res"].startswith("bad ") and "ids+" in d["res"] and not d["res"].endswith("ids+0") and not idsflag:
+            # the call itself (measured around it in the harness) left HDF5 identifiers open; reported once per session, and the
+            # session goes on: the close must release them all the same
+            idsflag.append(1)
+            nulltype_read = op[0] == "bad" and op[2] in ("rall", "rblock", "rdata") and op[3] == "nulltype"
+            bad.append((K_FAILIDS if (nulltype_read and d["res"].startswith("bad err")) else None,
+                        {"problem": "a data call left HDF5 identifiers open", "op": " ".join(op), "answer": d["res"], "after": l}))
         if prev is not None and d["res"] == "walk err" and d["fds"] < prev["fds"]:
             bad.append((None, {"problem": "a failing traversal closed descriptors", "before": prev["raw"], "after": l}))
             break
@@ -413,6 +430,8 @@ def gen_mll(rng, backend, big=False):
                 "gopath %d /Base/Nowhere" % h, "where", "nzones %d 7" % h,
                 "array %d 1 A_%s %s %d" % (h, rng.choice(MLL_DTYPES), rng.choice(MLL_DTYPES), rng.choice([2, 9])),
                 "array %d 1 New_%s %s 4" % ((h,) + (rng.choice(MLL_DTYPES),) * 2),
+                "fill %d 1 %s %d" % (h, rng.choice(FD_KINDS), rng.choice([1, 3, 9])), "drain %d 1 %s" % (h, rng.choice(FD_KINDS)),
+                "drain %d 1 %s" % (h, rng.choice(FD_KINDS[:5])),
                 "desc %d 1 Extra text" % h, "sol %d 1 1 SolNew" % h, "delete %d 1 Info" % h, "base %d Another" % h,
                 "save %d 2%d %s %d" % (h, rng.randint(0, 1), rng.choice(["adf", "hdf5"]), rng.randint(0, 1))]))
         elif held:
@@ -610,6 +629,16 @@ CORPUS_IO = [("world ok,ok 0>1", ["open 0 r", "node 1 1", "close 1"]),
              ("world ok,okL,okB,okE 2>3", ["open 0 r", "open 1 r", "close 2", "open 2 m", "walk 2 3", "close 2", "open 3 r", "open 1 m", "close 2", "open 0 r", "close 1"]),
              # every data type: dimension set-up, full / block / strided write and read
              ("world ok,ok -", ["open 0 m"] + ["data 1 %s %d %s" % (t, n, h) for t in DTYPES for (n, h) in ((7, "all"), (8, "block"), (9, "strided"))] + ["close 1"]),
+             # failing data calls, systematically: each entry point with each class of invalid argument, the file closed after each
+             ] + [("world ok,ok 0>1", [o for k in BAD_CLASSES for o in ("open 0 m", "bad 1 %s %s" % (e, k), "close 1")]) for e in BAD_ENTRIES] + [
+             # identifiers of each kind abandoned on the file (HDF5): the close frees every open access, in write and in read mode
+             ("world ok,ok 0>1", [o for k in STRAND_KINDS for o in ("open 0 m", "strand 1 %s" % k, "close 1")] +
+                                 [o for k in STRAND_KINDS for o in ("open 0 r", "strand 1 %s" % k, "strand 1 %s" % k, "close 1")]),
+             ("world ok,ok -", ["open 0 m", "open 1 m"] + ["strand %d %s" % (c, k) for k in STRAND_KINDS for c in (1, 2)] +
+                               ["bad 1 rblock nulltype", "close 1", "bad 2 rall nulltype", "strand 2 dataset", "close 2"]),
+             # ... and with the handle kept, other files open and a link traversed before the close
+             ("world ok,ok,ok 0>1,1>2", ["open 0 m", "open 1 m", "walk 1 1 2"] + ["bad %d %s %s" % (1 + i % 2, e, BAD_CLASSES[(3 * i + j) % len(BAD_CLASSES)])
+                                                                              for i, e in enumerate(BAD_ENTRIES) for j in range(3)] + ["close 2", "close 1"]),
              ("world ok,ok,badhdr,garbage 0>1,0>2,0>3,1>2", ["open 0 m", "walk 1 2", "walk 1 3", "walk 1 1 2", "open 2 r", "open 3 r", "node 1 1", "close 1"]),
              ("world ok,ok,ok 0>1,1>2", ["open 0 r", "open 1 r", "walk 1 1 2", "walk 2 2", "close 2", "close 1", "open 2 r", "open 2 m", "close 1", "close 2"])]
 
@@ -631,6 +660,35 @@ CORPUS_MLL = [
                      "link 0 1 1 GridCoordinates 1 /Base/Zone1/GridCoordinates", "close 0", "open 0 2 r", "rcoord 0 1 1 CoordinateX", "close 0"]),
     _sc("hdf5", [], ["open 0 1 w"] + W + ["close 0", "open 0 1 r", "open 1 1 r", "close 1", "close 0"]),
 ]
+
+
+# containers the MLL keeps an auxiliary index or a lazily (re)allocated array for: children of the base (zone map, particle-zone
+# map, family / descriptor / user-data arrays), of a zone (solution / grid / discrete / integral / user-data arrays), of a solution
+FD_KINDS = ["zone", "pzone", "family", "desc", "user", "sol", "grid", "discrete", "integral", "zuser", "field"]
+FD_VARIANTS = ["same", "same+write", "reopen", "reopen+write", "twice"]
+
+
+def fill_drain(backend, variant, n, kinds=FD_KINDS):
+    """create-all / delete-all / close, one open..close block per container kind:
+       same          created and ALL deleted in one MODIFY session             same+write    ... then two more written before the close
+       reopen        created in WRITE mode, closed, reopened MODIFY, all deleted reopen+write  ... then two more written
+       twice         reopen, then a second fill + drain in a third session, then a read-only look at the emptied file"""
+    body = []
+    for k in kinds:
+        pre = ["open 0 1 w", "base 0 Base"] + (["zone 0 1 Zone1 2", "sol 0 1 1 Sol1"] if FD_KINDS.index(k) >= 5 else [])
+        fill, drain, more = "fill 0 1 %s %d" % (k, n), "drain 0 1 %s" % k, "fill 0 1 %s 2" % k
+        if variant.startswith("same"):
+            body += pre + ["close 0", "open 0 1 m", fill, drain]
+        else:
+            body += pre + [fill, "close 0", "open 0 1 m", drain]
+        if variant.endswith("+write"):
+            body.append(more)
+        body.append("close 0")
+        if variant == "twice":
+            body += ["open 0 1 m", fill, drain, "close 0", "open 0 1 r", "nzones 0 1", "close 0"]
+    sc = _sc(backend, [], body)
+    sc["shape"] = "fill-drain:" + variant
+    return sc
 
 
 def long_session(backend):
@@ -763,6 +821,8 @@ def run(ck):
                 feats.add("dangling-path")
             if any(o.startswith("data ") for o in r["ops"]):
                 feats.add("data-types")
+            if any(o.startswith(("bad ", "strand ")) for o in r["ops"]):
+                feats.add("failing-data-call")
             if len(set(k for k in r["world"].split()[1].split(",") if k.startswith("ok"))) > 1:
                 feats.add("mixed-layouts")
             if ml and ml[-1] == "diverge":
@@ -794,8 +854,12 @@ def run(ck):
     # the slope run of the design: one long repetition per back end in the thorough tier (cycle 10 vs cycle 200)
     nc = len(CORPUS_MLL)
     # the slope run of the design (cycle 10 vs cycle 200 in the thorough tier): one clean long session per back end
-    scs = scs[:nc] + [long_session("adf"), long_session("hdf5")] + scs[nc:]
-    ncyc = lambda i: 3 if i < nc else (200 if big else 25) if i < nc + 2 else cyc
+    fd = [fill_drain(be, v, 40 if big else 12) for v in FD_VARIANTS for be in ("adf", "hdf5")]
+    # sizes around the growth steps of the zone maps (8, 16, 32, ... slots, two thirds usable)
+    fd += [fill_drain(be, v, n, ["zone", "pzone"]) for be in ("adf", "hdf5") for v in ("same", "reopen") for n in ((1, 5, 6, 11, 22, 300) if big else (1, 6, 43))]
+    nfd = len(fd)
+    scs = scs[:nc] + [long_session("adf"), long_session("hdf5")] + fd + scs[nc:]
+    ncyc = lambda i: 3 if i < nc else (200 if big else 25) if i < nc + 2 else (12 if big else 4) if i < nc + 2 + nfd else cyc
     futs = [pool.submit(mll_case, hml, sc, ck.work, "ml%d" % i, ncyc(i)) for i, sc in enumerate(scs)]
     for fu in futs:
         r = fu.result()
@@ -805,7 +869,7 @@ def run(ck):
         stats["mll_ops"] += len(sc["body"])
         stats["mll_cycles"] += r["cycles"]
         stats["leak_checks"] += 1
-        nontriv = sc["shape"] != "none" or any(o.startswith("open") and int(o.split()[2]) in SPECIAL for o in sc["body"])
+        nontriv = sc["shape"] not in ("none",) or any(o.startswith("open") and int(o.split()[2]) in SPECIAL for o in sc["body"])
         ck.case(hashlib.sha1(("|".join(sc["body"]) + sc["backend"]).encode()).hexdigest() if nontriv else None,
                 sample={"level": "mll", "backend": sc["backend"], "links": sc["shape"], "ops": sc["body"][:10] + ["..."], "cycles": r["cycles"]})
         stats["failing_opens_checked"] += sum(1 for op, l in zip(r["script"], r["impl"]) if op.startswith("open") and not l.startswith("open 0"))
@@ -831,6 +895,15 @@ def run(ck):
     for k in sorted(findings):
         key, desc, rep = findings[k]
         if key is None:
+            same = lambda bad, desc=desc: any(kk is None and dd.get("problem") == desc.get("problem") for kk, dd in bad)
+            try:
+                if rep["level"] == "cgio" and len(rep["ops"]) > 3:
+                    small = vlib.ddmin(rep["ops"], lambda ops, rep=rep: same(io_oracle(io_case(hio, rep["world"], ops, rep["backend"], ck.work, "shr"))), max_tests=60)
+                    rr = io_oracle(io_case(hio, rep["world"], small, rep["backend"], ck.work, "shr"))
+                    if same(rr):
+                        rep = dict(rep, ops=small, ops_before_shrinking=len(rep["ops"]), failure=[dd for kk, dd in rr if kk is None][0])
+            except vlib.Infra:
+                pass
             ck.violation(rep)
             continue
         # shrink the witness before reporting it (not needed for a key that is already listed: no replay is written)
@@ -841,6 +914,9 @@ def run(ck):
                     return any(kk == key for kk, _ in io_oracle(rr))
                 small = vlib.ddmin(rep["ops"], still, max_tests=60)
                 rep = dict(rep, ops=small, ops_before_shrinking=len(rep["ops"]))
+                for kk, dd in io_oracle(io_case(hio, rep["world"], small, rep["backend"], ck.work, "shr")):
+                    if kk == key:
+                        rep["failure"] = dd          # the description of the shrunk witness, not of the session it came from
             elif rep["level"] == "mll" and len(rep["body"]) > 8:
                 def still(body, rep=rep, key=key):
                     sc2 = {"prep": rep["prep"], "body": body, "backend": rep["backend"], "shape": "shrink", "nfiles": 0}
@@ -851,6 +927,13 @@ def run(ck):
                         return False
                 small = vlib.ddmin(rep["body"], still, max_tests=50)
                 rep = dict(rep, body=small, body_before_shrinking=len(rep["body"]))
+                try:
+                    sc2 = {"prep": rep["prep"], "body": small, "backend": rep["backend"], "shape": "shrink", "nfiles": 0}
+                    for kk, dd in mll_oracle(mll_case(hml, sc2, ck.work, "shr", 3)):
+                        if kk == key:
+                            rep["failure"] = dd
+                except vlib.Infra:
+                    pass
         ck.finding(key, rep)
     unexplained = [c for c in corr_broken if not c.get("explained_by")]
     if (broken or unexplained) and not ck.violations:
